@@ -1,0 +1,153 @@
+//! Read-only views for external verification tooling.
+//!
+//! Only compiled with `--cfg wayfind_verif`. Nothing in here is used by the router itself.
+
+use std::fmt::Write;
+
+use crate::{
+    errors::TemplateError,
+    node::Node,
+    nodes::Nodes,
+    parser::{ParsedTemplate, Part},
+    state::{
+        DynamicConstrainedState, DynamicState, EndWildcardConstrainedState, EndWildcardState,
+        NodeState, RootState, StaticState, WildcardConstrainedState, WildcardState,
+    },
+    Router,
+};
+
+/// One parsed part in reading order: kind (`S`, `d`, `D`, `w`, `W`), prefix or name, constraint.
+pub type PartDump = (char, Vec<u8>, Vec<u8>);
+
+/// Expansions of a template in the parser's order, each with its raw text and parts in reading order.
+///
+/// # Errors
+///
+/// Returns the parser's [`TemplateError`] unchanged.
+pub fn parse_dump(template: &[u8]) -> Result<Vec<(Vec<u8>, Vec<PartDump>)>, TemplateError> {
+    let parsed = ParsedTemplate::new(template)?;
+    Ok(parsed
+        .templates
+        .iter()
+        .map(|template| {
+            let parts = template
+                .parts
+                .iter()
+                .rev()
+                .map(|part| match part {
+                    Part::Static { prefix } => ('S', prefix.clone(), vec![]),
+                    Part::Dynamic { name } => ('d', name.as_bytes().to_vec(), vec![]),
+                    Part::DynamicConstrained { name, constraint } => (
+                        'D',
+                        name.as_bytes().to_vec(),
+                        constraint.as_bytes().to_vec(),
+                    ),
+                    Part::Wildcard { name } => ('w', name.as_bytes().to_vec(), vec![]),
+                    Part::WildcardConstrained { name, constraint } => (
+                        'W',
+                        name.as_bytes().to_vec(),
+                        constraint.as_bytes().to_vec(),
+                    ),
+                })
+                .collect();
+            (template.raw.clone(), parts)
+        })
+        .collect())
+}
+
+/// Byte-exact label of a node state.
+pub trait VerifLabel {
+    fn verif_label(&self) -> (&'static str, Vec<u8>, Vec<u8>);
+}
+
+impl VerifLabel for RootState {
+    fn verif_label(&self) -> (&'static str, Vec<u8>, Vec<u8>) {
+        ("root", vec![], vec![])
+    }
+}
+
+impl VerifLabel for StaticState {
+    fn verif_label(&self) -> (&'static str, Vec<u8>, Vec<u8>) {
+        ("s", self.prefix.clone(), vec![])
+    }
+}
+
+macro_rules! named {
+    ($state:ty, $kind:literal) => {
+        impl VerifLabel for $state {
+            fn verif_label(&self) -> (&'static str, Vec<u8>, Vec<u8>) {
+                ($kind, self.name.as_bytes().to_vec(), vec![])
+            }
+        }
+    };
+}
+
+macro_rules! constrained {
+    ($state:ty, $kind:literal) => {
+        impl VerifLabel for $state {
+            fn verif_label(&self) -> (&'static str, Vec<u8>, Vec<u8>) {
+                (
+                    $kind,
+                    self.name.as_bytes().to_vec(),
+                    self.constraint.as_bytes().to_vec(),
+                )
+            }
+        }
+    };
+}
+
+constrained!(DynamicConstrainedState, "dc");
+named!(DynamicState, "d");
+constrained!(WildcardConstrainedState, "wc");
+named!(WildcardState, "w");
+constrained!(EndWildcardConstrainedState, "ec");
+named!(EndWildcardState, "e");
+
+fn hex(bytes: &[u8]) -> String {
+    if bytes.is_empty() {
+        return "-".to_owned();
+    }
+
+    let mut out = String::with_capacity(bytes.len() * 2);
+    for byte in bytes {
+        let _ = write!(out, "{byte:02x}");
+    }
+
+    out
+}
+
+fn dump_children<T, S: NodeState + VerifLabel>(out: &mut String, nodes: &Nodes<T, S>, depth: usize) {
+    for child in nodes {
+        dump_node(out, child, depth);
+    }
+}
+
+fn dump_node<T, S: NodeState + VerifLabel>(out: &mut String, node: &Node<T, S>, depth: usize) {
+    let (kind, label, constraint) = node.state.verif_label();
+    let _ = writeln!(
+        out,
+        "{depth} {kind} {} {} {} {}{}{}",
+        hex(&label),
+        hex(&constraint),
+        if node.data.is_some() { "D" } else { "." },
+        u8::from(node.dynamic_children_shortcut),
+        u8::from(node.wildcard_children_shortcut),
+        u8::from(node.needs_optimization),
+    );
+
+    dump_children(out, &node.static_children, depth + 1);
+    dump_children(out, &node.dynamic_constrained_children, depth + 1);
+    dump_children(out, &node.dynamic_children, depth + 1);
+    dump_children(out, &node.wildcard_constrained_children, depth + 1);
+    dump_children(out, &node.wildcard_children, depth + 1);
+    dump_children(out, &node.end_wildcard_constrained_children, depth + 1);
+    dump_children(out, &node.end_wildcard_children, depth + 1);
+}
+
+/// Structural dump of a router's tree, one node per line in stored order:
+/// `depth kind label constraint has-data flags` (labels hex encoded, flags = the two shortcuts and the dirty mark).
+pub fn tree_dump<T>(router: &Router<T>) -> String {
+    let mut out = String::new();
+    dump_node(&mut out, router.verif_root(), 0);
+    out
+}
